@@ -715,9 +715,31 @@ func enumE2E(r *hx.Run) {
 			}
 			ts.Calls = nil
 			f := (i + k) % 2
+			c := ociCase{"oci-e2e", scopes, sp, rf}
+			// the other entry point that selects a statement: the skip decision notation.Verify asks for before it
+			// lists any signature. No applicable statement is a refusal there as well (otherwise an artifact without
+			// signatures is reported as "no signature" instead of "no applicable policy").
+			if sk, ok := any(v).(interface {
+				SkipVerify(context.Context, notation.VerifierVerifyOptions) (bool, *trustpolicy.VerificationLevel, error)
+			}); ok {
+				r.Eval(1)
+				skip, lvl, serr := sk.SkipVerify(ctx, notation.VerifierVerifyOptions{ArtifactReference: rf.Ref, SignatureMediaType: forge.Formats[f]})
+				var np notation.ErrorNoApplicableTrustPolicy
+				switch {
+				case want == "" && serr == nil:
+					r.Violation("oci-e2e/skip-decision-made-without-applicable-statement:"+rf.Label, fmt.Sprintf("reference %q has no applicable statement but SkipVerify answered skip=%v level=%v without error", rf.Ref, skip, lvl), c)
+				case want == "" && rf.Valid && !errors.As(serr, &np):
+					r.Violation("oci-e2e/refusal-is-not-a-no-applicable-policy-error:"+rf.Label, fmt.Sprintf("SkipVerify(%q): %T %v", rf.Ref, serr, serr), c)
+				case want != "" && serr != nil:
+					r.Violation("oci-e2e/skip-decision-refused-although-a-statement-applies:"+rf.Label, fmt.Sprintf("SkipVerify(%q): %v", rf.Ref, serr), c)
+				case want != "" && (skip || lvl == nil || lvl.Name != "strict"):
+					r.Violation("oci-e2e/skip-decision-under-wrong-statement:"+rf.Label, fmt.Sprintf("SkipVerify(%q): skip=%v level=%v, the applicable statement %q is strict", rf.Ref, skip, lvl, want), c)
+				default:
+					r.Outcome("e2e:skip-decision-consistent")
+				}
+			}
 			r.Eval(1)
 			_, verr := v.Verify(ctx, w.desc, w.envs[f], notation.VerifierVerifyOptions{ArtifactReference: rf.Ref, SignatureMediaType: forge.Formats[f]})
-			c := ociCase{"oci-e2e", scopes, sp, rf}
 			var loaded []string
 			for _, cl := range ts.Calls {
 				loaded = append(loaded, cl.Name)
